@@ -981,6 +981,6 @@ SUBS = [
         fingerprint=_fp, sample=_sample,
         require_tags=tuple('hit:' + c for c in CODES) + tuple('op:' + n for n in OPNAMES)),
     Sub('operators-random', oracle, _classify, strategy=_strategy,
-        budget={'quick': 80, 'thorough': 400}, fingerprint=_fp, sample=_sample,
+        budget={'quick': 150, 'thorough': 400}, fingerprint=_fp, sample=_sample,
         require_tags=('cli', 'add-must-reject', 'select:category')),
 ]
